@@ -30,7 +30,7 @@ func (r ScalarSetRule) Negate() Rule {
 func (r ScalarSetRule) JSONValues() string {
 	var acc []string
 	for _, v := range r.Argument {
-		acc = append(acc, fmt.Sprintf("\\\"%s\\\"", v))
+		acc = append(acc, fmt.Sprintf("\"%s\"", v))
 	}
 
 	return fmt.Sprintf("[%s]", strings.Join(acc, ","))
